@@ -77,14 +77,18 @@ inductive Act where
       (keepLine : Bool)
 deriving DecidableEq, Repr
 
-/-- `if (type == exact) { … } else { … }` around an action -/
-inductive Guard where | always | exact | inexact
+/-- `if (type == exact) { … } else { … }` around an action; `isType t` / `notType t`: `if (type == t) { … } else { … }` for
+another setup type (`setup --type build`), resolved against the command's `--type` list by `Db.withTypes` before the
+request runs (unresolved they read as under an empty `--type` list) -/
+inductive Guard where | always | exact | inexact | isType (t : Str) | notType (t : Str)
 deriving DecidableEq, Repr
 
 def Guard.holds (exact : Bool) : Guard → Bool
   | .always => true
   | .exact => exact
   | .inexact => !exact
+  | .isType _ => false
+  | .notType _ => true
 
 /-- a declared product (`Product`): name, version, directory, table -/
 structure Decl where
@@ -104,6 +108,18 @@ structure Db where
   decls : List Decl
   tags : List (Str × Name × Ver)        -- (tag, product, version): the chain files
 deriving Repr
+
+/-- `Eups(setupType=types)`: the tables as `Table.actions(flavor, setupType)` reads them for the setup types given with
+`--type` (other than `exact`, which the VRO decides: `Guard.exact`) -/
+def Guard.resolve (types : List Str) : Guard → Guard
+  | .isType t => if t ∈ types then .always else .isType t
+  | .notType t => if t ∈ types then .isType t else .always
+  | g => g
+
+def Decl.withTypes (types : List Str) (d : Decl) : Decl :=
+  { d with table := d.table.map fun ga => (ga.1.resolve types, ga.2) }
+
+def Db.withTypes (db : Db) (types : List Str) : Db := { db with decls := db.decls.map (Decl.withTypes types) }
 
 def Db.lookup (db : Db) (p : Prod) : Option Decl :=
   db.decls.find? (fun d => d.name = p.1 ∧ d.ver = p.2)
